@@ -63,6 +63,28 @@ def row(c, r):
     cfg = '(mkConv %s %s %s %s %s %s %s)' % (clist([csig(t) for t in k.tolist()]), copt(crow(c['bias']) if c['use_bias'] else None), cnat(c['strides'][0]), cnat(c['kernel_dilation'][0]),
                                              cnat(c['groups']), cnat(cin), cnat(k.shape[-1]))
     return '(' + ' && '.join('sig_beq (conv1d %s %s %s) %s' % (cfg, pad_term(c['padding']), csig(x[n].tolist()), csig(y[n].tolist())) for n in range(x.shape[0])) + ')'
+  if layer == 'conv' and len(c['kernel_size']) == 2 and c['input_dilation'] == [1, 1] and c['padding'] != 'CAUSAL':
+    x = np.array(c['x'], dtype=np.int64)
+    cin = x.shape[-1]
+    x = x.reshape((-1,) + x.shape[-3:])
+    k = np.array(c['kernel'], dtype=np.int64)
+    if c.get('mask') is not None:
+      k = k * np.array(c['mask'], dtype=np.int64)
+    if 0 in g['shape']:
+      return None
+    y = np.array(g['data']).reshape((-1,) + tuple(g['shape'][-3:]))
+    if not is_int(y):
+      return None
+    cimg = lambda a: clist([csig(r) for r in a])
+    cfg = '(mkConv2 %s %s %s %s %s %s %s %s %s)' % (clist([clist([csig(t2) for t2 in t1]) for t1 in k.tolist()]), copt(crow(c['bias']) if c['use_bias'] else None),
+                                                   cnat(c['strides'][0]), cnat(c['strides'][1]), cnat(c['kernel_dilation'][0]), cnat(c['kernel_dilation'][1]),
+                                                   cnat(c['groups']), cnat(cin), cnat(k.shape[-1]))
+    p = c['padding']
+    if isinstance(p, str) or isinstance(p, int):
+      p1 = p2 = pad_term(p)
+    else:
+      p1, p2 = pad_term([p[0]]), pad_term([p[1]])
+    return '(' + ' && '.join('list_beq sig_beq (conv2d %s %s %s %s %s) %s' % (cfg, p1, p2, cnat(x.shape[2]), cimg(x[n].tolist()), cimg(y[n].tolist())) for n in range(x.shape[0])) + ')'
   if layer == 'conv_transpose' and len(c['kernel_size']) == 1 and c['padding'] in ('SAME', 'VALID', 'CIRCULAR'):
     x = np.array(c['x'], dtype=np.int64)
     cin = x.shape[-1]
